@@ -1,5 +1,8 @@
 import Driver.Parse
 import RaftVerif.Spec.CommitSpec
+import RaftVerif.Spec.ConfigSpec
+import RaftVerif.Model.InmemStore
+import RaftVerif.Model.Compaction
 /-! H1 engines: one case per pair of lines (the case, then what the implementation produced);
 the verdict is `ok`, `diff …` (model ≠ implementation) or `bad …` (the implementation's own output
 fails the property's executable Spec). -/
@@ -64,6 +67,128 @@ def cmJudge (caseLine implLine : String) : String :=
       let m0 : CM.Commitment := ⟨c.voters.map (fun v => (v, 0)), 0, c.start⟩
       if s0.1 ≠ 0 ∨ s0.2 ≠ sortPairs m0.matchIndexes then s!"diff@init model={cmSnapStr m0}"
       else cmWalk c.start 0 m0 ⟨s0.2, s0.1, c.start⟩ c.voters c.ops snaps
+  | _, _ => "malformed"
+
+end Drv
+
+namespace Drv
+/-! ## nextConfiguration (C07) -/
+open CF in
+def pSuff : P CF.Suffrage := do
+  let n ← nat
+  match n with
+  | 0 => pure .voter | 1 => pure .nonvoter | 2 => pure .staging | _ => failure
+
+def pServer : P CF.Server := do let s ← pSuff; let i ← nat; let a ← nat; pure ⟨s, i, a⟩
+
+def pCmd : P CF.Cmd := do
+  let n ← nat
+  match n with
+  | 0 => pure .addVoter | 1 => pure .addNonvoter | 2 => pure .demoteVoter | 3 => pure .removeServer | 4 => pure .promote
+  | _ => failure
+
+def suffNum : CF.Suffrage → Nat | .voter => 0 | .nonvoter => 1 | .staging => 2
+
+def cfgStr (c : CF.Config) : String :=
+  "K " ++ toString c.length ++ String.join (c.map (fun s => s!" {suffNum s.suffrage} {s.id} {s.addr}"))
+
+def pCfg : P CF.Config := do kw "K"; many pServer
+
+def pNcOut : P (Option (Option CF.Config)) := do   -- none = input mutated; some none = error
+  let t ← peek
+  if t = some "E" then do kw "E"; pure (some none)
+  else if t = some "X" then do kw "X"; pure none
+  else do let c ← pCfg; pure (some (some c))
+
+def ncJudge (caseLine implLine : String) : String :=
+  let pc : P (Nat × CF.Config × CF.Change) := do
+    kw "I"; let i ← nat; let c ← pCfg; kw "R"
+    let cmd ← pCmd; let id ← nat; let a ← nat; let p ← nat
+    pure (i, c, ⟨cmd, id, a, p⟩)
+  match runP pc caseLine, runP pNcOut implLine with
+  | some (idx, cur, ch), some (some out) =>
+      let m := CF.nextConfiguration cur idx ch
+      if !CF.callOK cur idx ch out then
+        "bad " ++ (match out with
+          | some c' => if (decide (ch.prevIndex > 0) && decide (ch.prevIndex ≠ idx)) then "stale-prevIndex-accepted"
+                       else if !CF.wellFormed c' then "result-not-wellformed" else "more-than-one-voter-changed"
+          | none => "?")
+      else if m ≠ out then "diff model=" ++ (match m with | some c => cfgStr c | none => "E")
+      else "ok"
+  | some _, some none => "bad input-configuration-mutated"
+  | _, _ => "malformed"
+
+end Drv
+
+namespace Drv
+/-! ## LogCache (C19) and compaction arithmetic (C11) -/
+
+def pEntry : P LC.Entry := do let i ← nat; let t ← nat; let p ← nat; pure ⟨i, t, p⟩
+
+def pLcOp : P LC.Op := do
+  let t ← tok
+  if t = "G" then do let i ← nat; pure (.getLog i)
+  else if t = "S" then do let f ← nat; let ls ← many pEntry; pure (.storeLogs ls f)
+  else if t = "D" then do let lo ← nat; let hi ← nat; let f ← nat; pure (.deleteRange lo hi f)
+  else if t = "F" then pure .firstIndex
+  else if t = "L" then pure .lastIndex
+  else failure
+
+def pLcRes : P LC.Res := do
+  let t ← tok
+  if t = "e" then do
+    let k ← nat
+    if k = 0 then pure (.entry none) else do let e ← pEntry; pure (.entry (some e))
+  else if t = "b" then do let k ← nat; pure (.ok (k = 1))
+  else if t = "i" then do let k ← nat; pure (.idx (some k))
+  else failure
+
+def lcResStr : LC.Res → String
+  | .entry none => "e 0"
+  | .entry (some e) => s!"e 1 {e.index} {e.term} {e.payload}"
+  | .ok b => if b then "b 1" else "b 0"
+  | .idx (some k) => s!"i {k}"
+  | .idx none => "i -"
+
+/-- first position at which two result lists differ -/
+def firstDiff : Nat → List LC.Res → List LC.Res → Option Nat
+  | _, [], [] => none
+  | k, a :: as, b :: bs => if a = b then firstDiff (k + 1) as bs else some k
+  | k, _, _ => some k
+
+/-- impl line: the cache's results, then the bare store's results for the same operations -/
+def lcJudge (caseLine implLine : String) : String :=
+  let pc : P (Nat × List LC.Op) := do kw "C"; let c ← nat; kw "O"; let ops ← many pLcOp; pure (c, ops)
+  let pi : P (List LC.Res × List LC.Res) := do let a ← many pLcRes; kw "|"; let b ← many pLcRes; pure (a, b)
+  match runP pc caseLine, runP pi implLine with
+  | some (cap, ops), some (cacheRes, storeRes) =>
+      match firstDiff 0 cacheRes storeRes with
+      | some k => s!"bad@{k} cache-result-differs-from-wrapped-store"
+      | none =>
+        let m := LC.runCache LC.inmemBackend { st := LC.Inmem.empty, slots := List.replicate cap none } ops
+        match firstDiff 0 m cacheRes with
+        | some k => s!"diff@{k} model=" ++ (match m[k]? with | some r => lcResStr r | none => "-")
+        | none => "ok"
+  | _, _ => "malformed"
+
+def cpJudge (caseLine implLine : String) : String :=
+  let pc : P (Nat × Nat × Nat × Nat × Nat) := do
+    let a ← nat; let b ← nat; let c ← nat; let d ← nat; let e ← nat; pure (a, b, c, d, e)
+  let pi : P (Option (Nat × Nat)) := do
+    let t ← tok
+    if t = "N" then pure none else if t = "D" then do let a ← nat; let b ← nat; pure (some (a, b)) else failure
+  match runP pc caseLine, runP pi implLine with
+  | some (snap, last, trailing, first, storeLast), some out =>
+      -- Spec (C11): never above the snapshot, keeps `trailing` entries when that many exist,
+      -- starts at the store's first index
+      let bad := match out with
+        | none => false
+        | some (_, hi) => hi > snap || (hi + trailing > last) || storeLast ≠ last
+      if bad then "bad compaction-range"
+      else
+        let m := CP.compactRange snap last trailing first
+        if m ≠ out then "diff model=" ++ (match m with | none => "N" | some (a, b) => s!"D {a} {b}")
+        else "ok"
   | _, _ => "malformed"
 
 end Drv
